@@ -59,6 +59,11 @@ type C13Plan struct {
 	BigCert   bool     `json:"big_cert,omitempty"`   // the served slot certificate is a large RSA-4096 one
 	StubSlots []string `json:"stub_slots,omitempty"` // slots the stub served agent reports (nil: 9a, 9c)
 	PEMNoise  bool     `json:"pem_noise,omitempty"`  // the PIV tool prints text before the PEM block and blank lines after it
+	// SlowS > 0: the "slow served agent" session instead of Ops (see slowSessionC13): the SlowAt-th of NSlow raw
+	// relays takes SlowS seconds of simulated time in the served agent, which answers honestly in the end
+	SlowS  int `json:"slow_s,omitempty"`
+	SlowAt int `json:"slow_at,omitempty"`
+	NSlow  int `json:"n_slow,omitempty"`
 }
 
 var c13Ops = []string{"list", "sign", "add", "remove", "removeall", "lock", "unlock", "signers", "addhardcert", "addhardcert_legacy",
@@ -111,6 +116,13 @@ func genPivOutput(r *sim.Rng) (string, int) {
 
 func genC13(r *sim.Rng, tier string) any {
 	p := &C13Plan{}
+	if r.Bool(0.05) {
+		p.NSlow = r.Range(2, 5)
+		p.SlowAt = r.Intn(p.NSlow - 1)
+		p.SlowS = pick(r, []int{2, 16, 31, 61, 601, 3601})
+		p.RChunks, p.WChunks = nil, nil
+		return p
+	}
 	if r.Bool(0.3) {
 		p.Slots = "real"
 		p.Remote = r.Bool(0.25)
@@ -293,12 +305,83 @@ func execC13(t *testing.T, raw json.RawMessage) *sim.Outcome {
 	return o
 }
 
+// slowSessionC13: a served agent that takes its time over one request (a touch that is waited for) and answers it
+// honestly in the end. The caller of that request gets the served answer - or an error, if the client gave up on it;
+// every other request gets its own answer or an error (a client that gave up may refuse to go on with the connection),
+// never the answer to another request.
+func slowSessionC13(p *C13Plan) *sim.Outcome {
+	o := &sim.Outcome{}
+	st := stubFixture()
+	st.slowOn = map[int]time.Duration{p.SlowAt: time.Duration(p.SlowS) * time.Second}
+	a, b := net.Pipe()
+	done := make(chan struct{})
+	var srvPanic any
+	go func() {
+		defer close(done)
+		defer func() {
+			srvPanic = recover()
+			b.Close()
+		}()
+		yubiagent.ServeAgent(st, b)
+	}()
+	cli, err := yubiagent.NewClientFromConn(a)
+	if err != nil {
+		o.Fail("harness.setup", "client", 0, "%v", err)
+		return o
+	}
+	o.Fault("served_agent_slow")
+	gaveUp := false
+	for i := 0; i < p.NSlow; i++ {
+		req := append([]byte{200}, []byte(fmt.Sprintf("raw request %d of a session with a slow agent", i))...)
+		var got []byte
+		var cerr error
+		var cpanic any
+		func() {
+			defer func() { cpanic = recover() }()
+			got, cerr = cli.Forward(req)
+		}()
+		tag := fmt.Sprintf("op %d forward (request %d of %d, the served agent takes %d s over request %d)", i, i, p.NSlow, p.SlowS, p.SlowAt)
+		switch {
+		case cpanic != nil:
+			o.Fail("C13.no_crash", "client_panic:forward", i, "%s: client panicked: %v", tag, cpanic)
+			return o
+		case cerr != nil && i == p.SlowAt:
+			gaveUp = true
+			o.Probe("client_gave_up_on_slow_request")
+		case cerr != nil && gaveUp:
+			o.Probe("request_refused_after_giving_up")
+		case cerr != nil:
+			o.Fail("C13.result", "spurious_error:forward", i, "%s: the served agent answered but the caller got error %v", tag, cerr)
+		case !bytes.Equal(got, echoReply(req)):
+			o.Fail("C13.result", "forward_reply", i, "%s: the caller received %q, the served agent answered this request with %q", tag, trunc(got), trunc(echoReply(req)))
+		default:
+			o.Probe("op_agrees")
+		}
+		if o.All != nil {
+			break
+		}
+	}
+	// (the clock of the bubble stops when its root returns: let the slow call finish first)
+	time.Sleep(time.Duration(2*p.SlowS+60) * time.Second)
+	a.Close()
+	b.Close()
+	<-done
+	if srvPanic != nil && o.All == nil {
+		o.Fail("C13.no_crash", "server_panic:slow", 0, "the server side crashed: %v", srvPanic)
+	}
+	o.Signature = fmt.Sprintf("slow:%d/%d/%d/%v", p.SlowS, p.SlowAt, p.NSlow, gaveUp)
+	return o
+}
+
 func sessionC13(t *testing.T, raw json.RawMessage) *sim.Outcome {
 	o := &sim.Outcome{}
 	var p C13Plan
 	if err := json.Unmarshal(raw, &p); err != nil {
 		o.Fail("harness.plan", "unmarshal", 0, "%v", err)
 		return o
+	}
+	if p.SlowS > 0 {
+		return slowSessionC13(&p)
 	}
 	keys.ResetRSA()
 	st := stubFixture()
